@@ -32,7 +32,7 @@ Adopt(s, o)    == [s EXCEPT !.tabs = [t \in DOMAIN s.tabs |-> [s.tabs[t] EXCEPT 
 Init == st = InitSt /\ l = 1 /\ bad = <<>> /\ synced = TRUE
         /\ cnt = [ok |-> 0, known |-> 0, unmodelled |-> 0, skipped |-> 0, queries |-> 0]
 
-BadRec(e, what, expOut, dev) == [sc |-> e.sc, i |-> e.i, a |-> e.a.a, what |-> what, exp |-> expOut, obs |-> e.out, dev |-> dev, cfg |-> e.cfg]
+BadRec(e, what, expOut, dev, want) == [sc |-> e.sc, i |-> e.i, a |-> e.a.a, what |-> what, exp |-> expOut, obs |-> e.out, dev |-> dev, cfg |-> e.cfg, want |-> want]
 
 Step(e) ==
   IF e.a.a = "reset" THEN
@@ -43,7 +43,7 @@ Step(e) ==
   LET exp == Apply(st, e.a)
       o   == e.st
   IN IF e.out = "panic" THEN
-        /\ bad' = IF Len(bad) < MaxBad THEN Append(bad, BadRec(e, "panic", exp.out, "")) ELSE bad
+        /\ bad' = IF Len(bad) < MaxBad THEN Append(bad, BadRec(e, "panic", exp.out, "", <<>>)) ELSE bad
         /\ synced' = FALSE /\ UNCHANGED <<st, cnt>>
      ELSE IF exp.out = "unmodelled" THEN
         \* outside the model: follow the implementation if the schema is unchanged, else stop checking this scenario
@@ -59,7 +59,9 @@ Step(e) ==
          what    == IF ~outOk THEN "out" ELSE IF ~stOk THEN "state" ELSE IF ~rowsOk THEN "rows" ELSE IF ~cntOk THEN "cnt" ELSE ""
          dev     == IF what = "" THEN "" ELSE Deviation(st, e, exp, what)
          base    == IF outOk THEN exp.st ELSE st
-     IN /\ bad' = IF what = "" \/ Len(bad) >= MaxBad THEN bad ELSE Append(bad, BadRec(e, what, exp.out, dev))
+         want    == IF what = "rows" THEN EvalQ(e.a.q, DbOf(st), <<>>).rows
+                    ELSE IF what = "state" THEN [t \in DOMAIN exp.st.tabs |-> exp.st.tabs[t].rows] ELSE <<>>
+     IN /\ bad' = IF what = "" \/ Len(bad) >= MaxBad THEN bad ELSE Append(bad, BadRec(e, what, exp.out, dev, want))
         /\ cnt' = [cnt EXCEPT !.ok = IF what = "" THEN @ + 1 ELSE @,
                               !.known = IF what # "" /\ dev # "" THEN @ + 1 ELSE @,
                               !.queries = IF isQ THEN @ + 1 ELSE @]
